@@ -26,7 +26,8 @@ LEVEL = ("necessary conditions, each of which yields a SyntaxError / NameError /
          "and type strings that belong to the import universe are imported by the host header or the kind's get_imports); the "
          "check_ helper is named by one expression of the enum at definition, import and use; lazily imported model classes are imported in "
          "every function that uses them at run time; evaluated annotations are quoted; attribute declaration order (truth "
-         "table); lexical neutrality of every template block; dispatch totality; names never start with an underscore; every rename "
+         "table); parameter lists valid on every rendering (defaults of positional parameters in order with and without the `*,` "
+         "separator, a written separator followed by a parameter); lexical neutrality of every template block; dispatch totality; names never start with an underscore; every rename "
          "made to resolve an argument-name conflict is re-checked; directories that receive document-named modules are rebuilt "
          "from empty.")
 
@@ -957,8 +958,12 @@ def run(rep: Report, ctx: Any) -> str:
                       "`if TYPE_CHECKING:` line")
     rep.rule("R01.3", "evaluated annotations that can denote a lazily imported class are quoted")
     rep.rule("R01.4", "declaration order: the declaration passes of the class body partition the attributes over (default is none, required), "
-                      "no pass mixes attributes with and without default, passes without default come first; positional parameters do not "
-                      "carry defaults out of order")
+                      "no pass mixes attributes with and without default, passes without default come first; in a parameter list (the "
+                      "bracket group or macro body that writes the separator `*,`), on every rendering - every number of elements (0, 1, 2) "
+                      "of the collections it loops over or measures, every value of its other conditions - no positional parameter that may "
+                      "lack a default (an element's to_string(), text without `=`) follows one that may carry one, where positional means "
+                      "before the separator and, on a rendering on which the separator is not written, everywhere; and a separator that is "
+                      "written is followed by a parameter")
     rep.rule("R01.5", "lexical neutrality: every template block leaves the lexer of the generated language in the state it found it; no "
                       "newline-inserting filter inside a single-line string; inside a triple-quoted literal no hole that can carry document "
                       "text stands directly before the closing delimiter unless its escaping neutralises the quote character and the "
@@ -1353,10 +1358,11 @@ class _ListEval:
         if isinstance(n, nodes.Not):
             return not self.val(n.node)
         if isinstance(n, (nodes.And, nodes.Or)):
-            l, r = self.val(n.left), (self.val(n.right) if self.recording else None)
-            if isinstance(n, nodes.And):
-                return (self.val(n.right) if not self.recording else r) if l else l
-            return l if l else (self.val(n.right) if not self.recording else r)
+            l = self.val(n.left)
+            if self.recording or bool(l) == isinstance(n, nodes.And):  # (while the atoms are being collected: both operands)
+                r = self.val(n.right)
+                return r if bool(l) == isinstance(n, nodes.And) else l
+            return l
         if isinstance(n, nodes.CondExpr):
             c = self.val(n.test)
             a, b = self.val(n.expr1), (self.val(n.expr2) if n.expr2 is not None else None)
